@@ -256,6 +256,19 @@ Section Concrete.
     script message (est message (pstate message) w') = script message (est message (pstate message) w).
   Proof. inst PeerU.disconnect_sync. Qed.
 
+  (* exactly the answered exchanges are consumed from the peer's script (chaining calls: C15's split run) *)
+  Theorem C08_recovery_script fuel s w ms s' w' r :
+    cSync s w -> authed s = false -> (maxlen < fuel)%nat -> c_valid ms = true -> okm ms ->
+    healthy message 2 (est message (pstate message) w) ->
+    csend_multiple fuel s w ms = (s', w', r) ->
+    script message (est message (pstate message) w') = tl (tl (script message (est message (pstate message) w))).
+  Proof. inst PeerU.recovery_s. Qed.
+  Theorem C08_steady_script fuel s w ms s' w' r :
+    cSync s w -> authed s = true -> (maxlen < fuel)%nat -> c_valid ms = true -> okm ms ->
+    csend_multiple fuel s w ms = (s', w', r) ->
+    script message (est message (pstate message) w') = tl (script message (est message (pstate message) w)).
+  Proof. inst PeerU.steady_s. Qed.
+
   (* every history of calls, every fault script *)
   Theorem C08_history cs s w : cSync s w -> Forall cokc cs ->
     let '(s', w', rs) := crun_res s w cs in
